@@ -251,6 +251,11 @@ def response_case(draw):
     rq, _ = draw(requests(methods=("GET", "GET", "HEAD", "POST")))
     if recipe["kind"] != "file":
         rq["headers"] = [h for h in rq["headers"] if h[0] not in ("Range", "If-Range")]
+    elif draw(st.integers(0, 3)) > 0:
+        rng = draw(st.sampled_from(["bytes=0-4", "bytes=1-9", "bytes=0-6", "bytes=2-", "bytes=-7", "bytes=0-0,5-9", "bytes=0-3,8-", "bytes=0-63", "bytes=10-100", "bytes=5-4", "bytes=999-"]))
+        rq["headers"] = [h for h in rq["headers"] if h[0] not in ("Range", "If-Range")] + [["Range", rng]]
+        if draw(st.integers(0, 3)) == 0:
+            rq["headers"].append(["If-Range", draw(st.sampled_from(['"nope"', "Wed, 21 Oct 2015 07:28:00 GMT", "x"]))])
     return {"response": recipe, "request": rq, "as_view": draw(st.booleans())}
 
 
